@@ -1,7 +1,7 @@
 """C05 Deduplication answers are truthful."""
 import json
 
-from checks import sh_common, up_common
+from checks import sh_common, sm_common, up_common
 
 
 def check(ctx):
@@ -17,10 +17,14 @@ def check(ctx):
     sh_common.record(ctx, "setops", 10 * k, seed_off=50, need=("ShDedup:disk:found",))
     # the answers the upload pipeline actually acts on, including the lookup in the file's own pending xorb
     up_common.run_decisions(ctx, ["C05"])
+    # the manager's answers under every interleaving of add / flush / register (in-memory shard, keyed collections)
+    sm_common.run(ctx, controls=("first_verdict",))
     ctx.assumptions += sh_common.ASSUME
 
 
 def replay(ctx, path):
+    if json.loads(open(path).readline()).get("ev") == "SmSetup":
+        return 0 if sm_common.validate(ctx, path, "replay") else 1
     if "limits" in json.loads(open(path).readline()):      # an upload trace
         return 0 if up_common.validate(ctx, path, "replay", ["C05"]) else 1
     return 0 if sh_common.validate(ctx, path, "replay") else 1
